@@ -148,3 +148,8 @@ Proof.
   - auto.
   - inversion E; subst. destruct (IH a') as [-> ->]; auto.
 Qed.
+
+(* Coq's [rev] is quadratic; executable definitions use the linear [frev]. *)
+Definition frev {A} (l : list A) : list A := rev_append l [].
+Lemma frev_rev {A} (l : list A) : frev l = rev l.
+Proof. unfold frev. symmetry. apply rev_alt. Qed.
